@@ -32,3 +32,23 @@ Print Assumptions C11_literal_unique.
 Theorem C11_literal_matches : forall orbit ci s, lit_sem orbit ci s s.
 Proof. exact lit_sem_refl. Qed.
 Print Assumptions C11_literal_matches.
+
+From WaxProofs Require Import TextExists.
+
+(* existence: a pattern that reports invariant text does match it, provided no class lists the separator (such a class
+   reports the text `/` although it matches nothing: the known class separator_class) *)
+Theorem C11_matched :
+  forall (orbit : char -> list char) (has_casing : char -> bool) t txt,
+    nonempty_branches t = true -> classes_plain t = true ->
+    text_variance has_casing t = Ok (Inv txt) -> Lang orbit t (text_to_string txt).
+Proof. exact invariant_text_is_matched. Qed.
+Print Assumptions C11_matched.
+
+(* the property as stated: the invariant text is the one and only path in the documented language *)
+Theorem C11_one_and_only :
+  forall (orbit : char -> list char) (has_casing : char -> bool),
+    (forall c d, has_casing c = false -> In d (orbit c) -> d = c) ->
+    forall t txt, nonempty_branches t = true -> classes_plain t = true -> text_variance has_casing t = Ok (Inv txt) ->
+    forall w, Lang orbit t w <-> w = text_to_string txt.
+Proof. exact invariant_text_characterises. Qed.
+Print Assumptions C11_one_and_only.
